@@ -312,9 +312,7 @@ class ModelsMixin(object):
             t = int_term(v)
             if self.entails(t >= 0):
                 return t
-            if self.branch(t >= 0):
-                return t
-            return z3.If(nt + t < 0, z3.IntVal(0), nt + t)
+            return z3.If(t >= 0, t, z3.If(nt + t < 0, z3.IntVal(0), nt + t))
         lo_t = norm(lo, z3.IntVal(0))
         hi_t = norm(hi, nt)
         return lo_t, z3.simplify(hi_t - lo_t)
@@ -674,6 +672,12 @@ class ModelsMixin(object):
             return v
         if isinstance(v, SInt):
             t = v.term
+            if self.entails(t >= 0):
+                r = z3.IntToStr(t)
+                # facts about decimal rendering (A-ITOS): digits only, non-empty, parses back
+                self.assume_raw(z3.InRe(r, z3.Plus(z3.Range("0", "9"))))
+                self.assume_raw(z3.StrToInt(r) == t)
+                return SStr(r)
             return SStr(z3.If(t < 0, z3.Concat(z3.StringVal("-"), z3.IntToStr(-t)), z3.IntToStr(t)))
         if isinstance(v, SBool):
             return "True" if self.branch(v.term) else "False"
@@ -1144,7 +1148,8 @@ def _m_int(ctx, args, kwargs):
         return SInt(int_term(v))
     if isinstance(v, SStr):
         n = z3.StrToInt(v.term)
-        if ctx.branch(n >= 0):
+        if ctx.branch(z3.InRe(v.term, z3.Plus(z3.Range("0", "9")))):
+            ctx.assume_raw(n >= 0)
             # all-digit string (CPython also accepts sign, blanks and underscores: those
             # inputs are outside the modelled domain and end up on the other branch)
             return SInt(n)
@@ -1336,7 +1341,8 @@ def _m_fromhex(ctx, args, kwargs):
             return bytes.fromhex(s)
         except Exception as e:  # noqa
             ctx.py_raise(type(e), *e.args)
-    ctx.unsupported("bytes.fromhex on a symbolic string")
+    ctx.eng.externals_used.add("bytes.fromhex on symbolic text (uninterpreted function; no ValueError path modelled)")
+    return SBytes(term=FROMHEX(str_term(s)))
 
 
 def _m_issubset_method(ctx, recv, other):
